@@ -160,3 +160,10 @@ def matrix(case, ctx):
     ctx.check(verifier_ret != 1, "%s %s reports a completed handshake although the %s's credentials have the defect '%s' (client ret=%s, server ret=%s, chain with %d intermediate CA)" %
               (proto, "client" if who == "server" else "server", who, defect, hc[1], hs[1], 1 + extra),
               "bypass/%s/%s/%s" % (proto, who, defect))
+
+
+# ---------------------------------------------------------------------------
+# dishonest peers: pure-Python scripted TLS 1.2 / TLCP endpoints (vlib/peer12.py) that deviate from the protocol state machine while
+# keeping master secret, keys and Finished consistent with what they sent
+from props.c09x import scripted12
+scripted12.register(P)
